@@ -25,6 +25,24 @@ class _RowVal(Stub):
     def __init__(self, v):
         self.v = v
 
+    def _ar(self, o, f):
+        if isinstance(o, _RowVal):
+            o = o.v
+        if not isinstance(o, (int, float)) or isinstance(o, bool):
+            raise Unsupported("arithmetic between a period length and " + type(o).__name__)
+        return _RowVal(f(self.v, o))
+
+    def __truediv__(self, o): return self._ar(o, lambda a, b: a / b)
+    def __floordiv__(self, o): return self._ar(o, lambda a, b: a // b)
+    def __mul__(self, o): return self._ar(o, lambda a, b: a * b)
+    __rmul__ = __mul__
+    def __add__(self, o): return self._ar(o, lambda a, b: a + b)
+    __radd__ = __add__
+    def __sub__(self, o): return self._ar(o, lambda a, b: a - b)
+    def __round__(self, n=None): return _RowVal(round(self.v, n) if n is not None else round(self.v))
+    def __int__(self): return int(self.v)
+    def __float__(self): return float(self.v)
+
 
 class _Days(Stub):
     def __init__(self, d):
@@ -47,7 +65,10 @@ class _IdxDiff(Stub):
         self.days = _Days(d)
 
     def total_seconds(self):
-        return _Days(self.days.d * 86400.0)
+        return _Days(self.days.d * 86400.0 + 3600.0)   # read dates are local midnights: the generic period spans the autumn clock change (d days and one hour)
+
+    def __truediv__(self, o):
+        raise Unsupported("division of index differences (use .days or total_seconds())")
 
 
 class _BIdx(Idx):
@@ -135,7 +156,10 @@ def outcomes(chk) -> List[Dict[str, Any]]:
             warned: List[Any] = []
             it = Interp(step_limit=50_000)
             env = ModuleEnv(chk.repo, fi.module, it, {"np": NPRow(), "numpy": NPRow(), "pd": _PD(), "pandas": _PD(),
-                                                      "EEMeterWarning": StubCall(lambda **k: k.get("qualified_name"))})
+                                                      "EEMeterWarning": StubCall(lambda **k: k.get("qualified_name")),
+                                                      # trusted summary (its definition is decided by C10 R10.6): elapsed time to the next read in days, a float
+                                                      "day_counts": StubCall(lambda ix, *a, **k: Ser((ix.d * 86400.0 + 3600.0) / 86400.0 if getattr(ix, "present", True) else ABSENT)
+                                                      if isinstance(ix, _BIdx) else (_ for _ in ()).throw(Unsupported("day_counts of something that is not the frame's index")))})
             try:
                 res = Function(fi.node, env, it)(_BFrame({"value": VALUE}, True, d), iv, warned)
             except InterpRaised as e:
